@@ -7,6 +7,7 @@
 package simconn
 
 import (
+	"errors"
 	"io"
 	"net"
 	"os"
@@ -63,6 +64,7 @@ type Conn struct {
 	stallW       bool
 	blockedWrite bool
 	resumeW      bool
+	closeErr     bool
 	breakW       int // >= 0: the blocked write fails, the connection having taken this many of its bytes (-1: no)
 }
 
@@ -259,7 +261,18 @@ func (c *Conn) Close() error {
 	if already {
 		return closedErr("close")
 	}
+	if c.closeErr {
+		// (as crypto/tls does when the peer is gone: the connection is closed, and Close still reports an error)
+		return errors.New("simconn: failed to send the closing alert (but the connection was closed anyway)")
+	}
 	return nil
+}
+
+// SetCloseError makes Close report an error although it closes the connection.
+func (c *Conn) SetCloseError(on bool) {
+	c.mu.Lock()
+	c.closeErr = on
+	c.mu.Unlock()
 }
 
 func (c *Conn) LocalAddr() net.Addr  { return addr("127.0.0.1:40000") }
@@ -426,6 +439,13 @@ func (c *Conn) StallWrites(on bool) {
 }
 
 // ResumeWrite lets a parked Write re-examine the connection (gated mode).
+// HasWriteDeadline says whether a write deadline is set.
+func (c *Conn) HasWriteDeadline() bool {
+	c.mu.Lock()
+	defer c.mu.Unlock()
+	return !c.wdl.IsZero()
+}
+
 // ExpireWriteDeadline lets a write deadline that is set pass now (the replay has no clock: the caller's deadline passing
 // is an event of the schedule, and with it passes the write deadline flush derived from it).
 func (c *Conn) ExpireWriteDeadline() bool {
